@@ -55,6 +55,10 @@ def gen_stats_case(rng, M, P, N, scalar="f64", weights=None, noise=0.05, quant=N
     synth_observations(rng, c, truth, noise=noise, qbits=qbits)
     if weights and weights != "none":
         w = [1.0] * N if weights == "unit" else [dyadic(rng, 0.5, 3, 2) for _ in range(N)]
+        if weights == "neg":
+            # the sign of a weight is immaterial for the fit (only w^2 enters); it must be for the statistics too
+            for i in rng.sample(range(N), max(1, N // 3)):
+                w[i] = -w[i]
         if weights == "zeros":
             # some samples masked out by a weight of exactly zero (they still count as observations: N is the sample count)
             nz = max(1, min(N - (M + P) - 1, N // 4))
